@@ -34,6 +34,15 @@ Definition oracle_conv (inp obs : list N) : bool :=
             let e := if same then 1%N else 0%N in
             list_N_eqb obs [e; e; 1%N; 1%N]
         end
+      else if (sub =? 3)%N then
+        (* "equal exactly when dimensions and cells are equal": with a NaN cell the cells are
+           not equal to themselves, so the array is equal to nothing - itself included *)
+        match run_parser (c <~ p_nat ;; r <~ p_nat ;; nan <~ p_nat ;; p_ret (c, r, nan)) rest with
+        | None => false
+        | Some (c, r, nan) =>
+            let has_nan := (0 <? nan) && (nan <=? c * r) in
+            list_N_eqb obs (if has_nan then [0%N; 1%N; 0%N; 0%N] else [1%N; 0%N; 1%N; 1%N])
+        end
       else
         match run_parser (via <~ p_nat ;; c <~ p_N ;; r <~ p_N ;; l <~ p_nat ;; tr <~ p_bool ;;
                           p_ret (via, c, r, l, tr)) rest with
